@@ -26,7 +26,9 @@
 (* and (Inv_C02_Admission, ghost `okAdm`) that every admission satisfied the *)
 (* Strict guards.  Topology_Weak*.cfg flip one W_* switch each: TLC must     *)
 (* then violate an invariant.  Inv_C02_Forms ties the order-free end-state   *)
-(* forms the trace spec uses on Results to the same semantics.               *)
+(* forms the trace spec uses on Results to the same semantics; it is also    *)
+(* checked over ALL placement sequences (W_Guard = FALSE, Topology_Free.cfg) *)
+(* so that both directions of the equivalences are exercised.                *)
 (*                                                                         *)
 (* The scenario cfg has the shape of the scheduling driver's scenario JSON,  *)
 (* so GenSpec makes TLC enumerate scenarios that are replayed on the real    *)
@@ -39,7 +41,8 @@ CONSTANTS
     Archs,        \* archetype ids the batch is drawn from (subset of 1..23)
     Layouts,      \* existing-state ids (subset of 0..9)
     MaxClaims,    \* new NodeClaims per pass
-    W_AllDomains, W_Inverse, W_Certain, W_Bootstrap, W_Slack, W_Exclude, W_MatchKeys, W_MinDomains, W_Policies
+    W_AllDomains, W_Inverse, W_Certain, W_Bootstrap, W_Slack, W_Exclude, W_MatchKeys, W_MinDomains, W_Policies,
+    W_Guard       \* TRUE: placements are guarded; FALSE (Topology_Free.cfg): ANY placement - exercises both directions of Inv_C02_Forms
 
 VARIABLES cfg, plc, tg, state, boot, okAdm
 vars == <<cfg, plc, tg, state, boot, okAdm>>
@@ -165,7 +168,7 @@ Place(k, x) ==
         tg2 == [id \in DOMAIN tg \cup {x.id} |-> IF id = x.id THEN x ELSE tg[id]]
         W == World(tg2)
     IN /\ NodeOK(p, x)
-       /\ Guards(O, W, p, x)
+       /\ (W_Guard => Guards(O, W, p, x))
        /\ plc' = Append(plc, [pod |-> k, tid |-> x.id, at |-> x])
        /\ tg' = tg2
        /\ state' = [state EXCEPT ![k] = "placed"]
